@@ -16,6 +16,7 @@ func runC07(c *Ctx) {
 	c.Clause("C07.4 ACK timing structure: an ack-eliciting 1-RTT packet leaves with an ACK queued or the alarm set to rcvTime+maxAckDelay; Initial/Handshake ACKs are not gated; the four immediate-ACK triggers exist")
 	c.Clause("C07.5 decision predicates of the forget-below pruning and of the gap-reveal / gap-fill ACK triggers (isMissing, hasNewMissingPackets, DeleteBelow trim and whole-range deletion) have the frozen shapes")
 	c.Clause("C07.6 GetAckFrame decides alarm expiry on ackAlarm, the field GetAlarmTimeout reports")
+	c.Clause("C07.7 the connection's run-loop timer folds in the ACK alarm on every path that is not hard-blocked (an armed alarm that the timer ignores never fires)")
 	c.NotCovered("interval-list algebra (merge/insert/prune correctness), HighestMissingUpTo")
 	c.NotCovered("that ranges are disjoint and include the largest received, as a value-level fact")
 
@@ -25,6 +26,7 @@ func runC07(c *Ctx) {
 	c.rule("C07.4", func() { c07Timing(c) })
 	c.rule("C07.5", func() { c07Predicates(c) })
 	c.rule("C07.6", func() { c07AlarmAgreement(c) })
+	c.rule("C07.7", func() { timerFold(c, "C07.7", false, true) })
 }
 
 func c07Ranges(c *Ctx) {
